@@ -15,6 +15,7 @@ BUDGET = {
     "C07": B(1500, 15000),
     "C08": B(1500, 15000),
     "C20": B(1500, 15000),
+    "C14": B(800, 10000),
     "C05": B(800, 12000),
     "C10": B(1500, 20000),
     "C16": B(800, 12000),
@@ -35,6 +36,13 @@ RULE = {
     "C03": SCHED + "Programs as C01 plus an ordering shape (a holder, then requests issued one by one, each only after the previous requester is parked). "
            "Oracle over the event log: for requests X, Y with PARK(X) < CALL(Y), not both reads: RET(X) < RET(Y). Non-trivial = at least one such ordered pair "
            "and two threads parked at once.",
+    "C14": "rapidcheck generates histories (<=60 ops quick, <=200 thorough) over a pool of 4 tulz::Array<int> / Array<lifetime-tracked class>: construction from pointer+length "
+           "(copy, and adopting a malloc'ed block), initializer list (0-8), size, size+value, default; copy/move construct and assign, self-assignment, swap, resize(n), "
+           "resize(n, v), element writes through operator[]/iterator/front/back, destroy; lengths 0-40 (thorough 0-2000). Oracle: std::vector<std::optional<int>> model "
+           "(indeterminate for int slots left uninitialised) compared after every op through size/operator[]/array()/iteration; distinct arrays never share storage; "
+           "lifetime registry with no tolerated shells (reachable == live after every op, nothing live at the end); allocator-hook accounting; ASan. Non-trivial = a class-type "
+           "array built through pointer+length, or a resize across the old size on a class-type array, or a write next to another live array (copy independence). "
+           "Distinct = distinct case text.",
     "C05": "rapidcheck generates histories (<=80 ops quick, <=160 thorough) on one Subject<Args...> for five argument signatures: subscribe (callable / callable taking "
            "SelfView / unique_ptr observer), handle.unsubscribe, subject.unsubscribe (valid, stale and foreign handles), mute/unmute, invalidate, self-invalidation on the next "
            "call, handle move construction/assignment, notify with generated values. Oracle: ordered reference model (id, muted, valid); after each notify the call log equals "
@@ -82,6 +90,7 @@ VS = ["controlled scheduler: pre-emption only at synchronisation operations, thr
       "glibc pthread primitives are modelled by the scheduler (mutex owner table, condvar waiter lists), not executed"]
 
 ASSUMPTIONS = {
+    "C14": ["element types are bitwise relocatable", "resize(n, v): v never aliases the array", "int slots that tulz leaves uninitialised are never compared"],
     "C05": ["handles are used only after isValid(), as every real caller does", "handle validity between an invalidation and the lazy removal at the next notify is left open"],
     "C10": ["callbacks never touch their captures after an action that may destroy their observer", "every observer index is subscribed at most once per case"],
     "C16": ["model uses the same C++ arithmetic; values bounded (no signed overflow, no division by zero)"],
